@@ -1,7 +1,7 @@
 (* Property C07 — partial lexing commits only items that more input cannot change.
    Only final statements; proofs in Engine/PartialProofs.v. *)
 From Coq Require Import List NArith.
-From LogosV Require Import Engine.Model Engine.Cert Engine.CertProofs Engine.PartialProofs Engine.PromptProofs.
+From LogosV Require Import Engine.Model Engine.Cert Engine.CertProofs Engine.PartialProofs Engine.PromptProofs Engine.StreamProofs.
 Import ListNotations.
 Local Open Scope N_scope.
 
@@ -58,3 +58,37 @@ Theorem C07_prompt_strict : forall d g V R s q st, prompt_strict_ok d g V R = tr
   inV V s q = true -> gfind g s = Some st -> determined d R q = true ->
   partial_mode_test st = false.
 Proof. exact prompt_strict. Qed.
+
+(* Stream level.  The regions (items and skipped matches) that a partial lexer over w[..k] produces from
+   a position until its first None at s are a leading run of the one-shot lexing of w from the same
+   position, and lexing w from s gives exactly the rest, with the same ending.  Every graph. *)
+Theorem C07_stream_prefix : forall g act fbp fbw (w : list byte) (k : nat),
+  (k <= length w)%nat -> (forall i, i <= N.of_nat k -> fbp i = fbw i) ->
+  forall F1 F2 start rs s rs2 fin2, (F1 <= F2)%nat ->
+  lex_from (attempt_ref g) act fbp (firstn k w) true F1 start = (rs, Finished s s) ->
+  lex_from (attempt_ref g) act fbw w false F2 start = (rs2, fin2) -> fin2 <> Broken ->
+  exists rs3 F3, (0 < F3 <= F2)%nat /\ rs2 = rs ++ rs3 /\
+    lex_from (attempt_ref g) act fbw w false F3 s = (rs3, fin2).
+Proof. intros g act fbp fbw w k. exact (lex_prefix_stream g act fbw w fbp k). Qed.
+
+(* Under the certificate no run of a partial lexer is out of fuel or stuck ... *)
+Theorem C07_partial_runs_end : forall d g V R D,
+  dfa_ok d = true -> sim_ok d g V D = true -> exact_ok d g V R D = true ->
+  forall act (w : list byte), bytes_ok w -> forall k, (k <= length w)%nat ->
+  forall fbp, (forall i, i <= N.of_nat k -> i <= fbp i) ->
+  forall fuel start, (N.to_nat (N.of_nat k - start) < fuel)%nat ->
+  snd (lex_from (attempt_ref g) act fbp (firstn k w) true fuel start) <> Broken.
+Proof. exact lex_partial_not_broken. Qed.
+
+(* ... and feeding the input through ANY sequence of buffers w[..k1], w[..k2], ... (each partial lexer run
+   until None, the next one resumed at the reported position), finishing with an ordinary lexer over w,
+   reproduces the one-shot lexing of w exactly: the same items, the same skipped matches, the same end. *)
+Theorem C07_chunked_is_oneshot : forall d g V R D,
+  dfa_ok d = true -> sim_ok d g V D = true -> exact_ok d g V R D = true ->
+  forall act fbw fbk (w : list byte), bytes_ok w ->
+  (forall l s e, s < e -> e <= N.of_nat (length w) -> e + snd (act l s e) <= N.of_nat (length w)) ->
+  (forall i, i <= N.of_nat (length w) -> i <= fbw i /\ fbw i <= N.of_nat (length w)) ->
+  (forall k i, i <= N.of_nat k -> fbk k i = fbw i) ->
+  forall ks, Forall (fun k => (k <= length w)%nat) ks ->
+  chunked g act fbw w fbk ks 0 = lex_all (attempt_ref g) act fbw w false.
+Proof. exact chunked_is_oneshot. Qed.
